@@ -129,7 +129,11 @@ def main():
     # one build at a time: checks may be started concurrently and share coq/ and ocaml/_build
     import fcntl
     os.makedirs(os.path.join(VERIF, ".scratch"), exist_ok=True)
-    with open(os.path.join(VERIF, ".scratch", "build.lock"), "w") as lk:
+    if os.environ.get("CF_SKIP_PROOF") == "1":
+        # tools/mutants.py only: correspondence against a scratch copy of /repo, the proof stage (which regenerates Translated.v from /repo) is left alone
+        pr = {"obligations": 0, "discharged": 0, "theorems": [], "failures": [], "axioms": []}; drv_ok = os.path.exists(common.DRIVER)
+    else:
+      with open(os.path.join(VERIF, ".scratch", "build.lock"), "w") as lk:
         fcntl.flock(lk, fcntl.LOCK_EX)
         pr = proof_stage(pid, tier, log)
         drv_ok = ensure_driver(log)
